@@ -26,7 +26,11 @@ class LocalDeme(AbstractDeme):
 
     def run_metaepoch(self, _) -> None:
         x0 = self._sprout_seed.genome
-        fun = self._problem.evaluate
+        sign = -1.0 if self._problem.maximize else 1.0
+        self._sign = sign
+
+        def fun(x):
+            return sign * self._problem.evaluate(x)
 
         result = sopt.minimize(
             fun,
@@ -52,5 +56,5 @@ class LocalDeme(AbstractDeme):
 
     def _history_callback(self, intermediate_result) -> None:
         ind = Individual(np.copy(intermediate_result.x), problem=self._problem)
-        ind.fitness = intermediate_result.fun
+        ind.fitness = self._sign * intermediate_result.fun
         self._run_history.append(ind)
